@@ -70,6 +70,8 @@ class Check:
             return fn(*args, **kw)
         except AnchorMissing as e:
             self.anchor_missing("anchor", f"{getattr(fn, '__name__', '?')}: {e}")
+        except (SyntaxError, ImportError, NameError):
+            raise  # a defect of the checker itself, not a property of the analysed code: never "undecided"
         except Exception as e:  # noqa: BLE001
             traceback.print_exc()
             tb = traceback.extract_tb(e.__traceback__)
